@@ -5,6 +5,7 @@
 //! must be a typed error / obstruction, or a success whose committed transactions are a prefix of
 //! the original list.
 mod damage;
+mod hostreader;
 mod readers;
 
 use damage::{apply, enumerate_ops, M};
@@ -37,7 +38,8 @@ fn main() {
         let v: Value = serde_json::from_str(&txt).unwrap_or(json!(null));
         let case = v["detail"]["case"].clone();
         let mut st = Stats::default();
-        match readers::replay(&scratch, &case, &mut st) {
+        let res = if case.get("host_log").is_some() { hostreader::replay(&case, &mut st) } else { readers::replay(&scratch, &case, &mut st) };
+        match res {
             Ok(()) => {}
             Err(e) => r.machinery_error(&format!("replay: {e}")),
         }
@@ -72,7 +74,7 @@ fn main() {
     let mut jobs: Vec<(usize, M)> = Vec::new();
     for (i, (a, b)) in logs.iter().enumerate() {
         let flips = r.thorough() || a.n() == 1;
-        let zero = r.thorough() || a.n() <= 2;
+        let zero = r.thorough() || a.n() == 1;
         for m in enumerate_ops(a, b, flips, zero) {
             jobs.push((i, m));
         }
@@ -131,6 +133,9 @@ fn main() {
         .reduce(Stats::default, Stats::merge);
     let oc2 = st2.outcomes.clone();
     st2.flush(&r);
+
+    // ---- the trusted host as a reader ----------------------------------------------------------
+    hostreader::run(&r);
 
     // ---- vacuity guards -----------------------------------------------------------------------
     let kinds: std::collections::BTreeSet<String> = oc
